@@ -12,12 +12,12 @@ PID = "C14"
 MANIFEST = {
     "text": "Coq theorems over the transcribed built-ins (sort/sort_by permutation+stability+sortedness, unique, "
             "reverse, concat, flatten/chunk, zip, slice/head/tail, range, keys/values/entries, group_by/count_by "
-            "partition, join/split, indexing, field access, spreading, string/character consistency with its "
-            "refutation on non-ASCII text), model tied to the code by the BUILTIN and EVAL correspondence streams "
+            "partition, join/split, indexing, field access, spreading, string/character consistency, no panic in "
+            "range/sort), model tied to the code by the BUILTIN and EVAL correspondence streams "
             "and by the laws re-evaluated on the implementation's own serialised results",
     "note": "trusted: Coq kernel + vm_compute; hand transcription of 26 built-in arms and of the Access/DotAccess/"
-            "Spread arms (validated by correspondence every run); slice::sort_by stability, str::split/replace/"
-            "contains as naive search, str::trim/to_uppercase/to_lowercase and f64 Display as oracles",
+            "Spread arms and of the repo's own stable merge sort (validated by correspondence every run); "
+            "str::split/replace/contains as naive search, str::trim/to_uppercase/to_lowercase and f64 Display as oracles",
     "design_ref": "notes/C14.md (DESIGN.md section 6 C14)",
 }
 REQS = ["Blots.Num", "Blots.gen.Builtins", "Blots.Ast", "Blots.Value", "Blots.Outcome", "Blots.Show",
@@ -342,11 +342,6 @@ class Case:
         args = "[" + "; ".join(a.coq() for a in self.args) + "]"
         run = "run_bi_checked" if self.checked else "run_bi"
         call = "(%s B_%s %s)" % (run, self.name, args)
-        if self.name == "sort" and len(self.args) == 1 and getattr(self.args[0], "k", "") == "list":
-            return "(mark (mutually_comparable [%s]) (show_out %s))" % ("; ".join(x.coq() for x in self.args[0].p), call)
-        if self.name == "sort_by" and len(self.args) == 2 and getattr(self.args[0], "k", "") == "list" and not self.checked:
-            return "(mark (keys_comparable %s [%s]) (show_out %s))" % (
-                self.args[1].coq(), "; ".join(x.coq() for x in self.args[0].p), call)
         return "(show_out %s)" % call
 
     def text(self):
@@ -557,36 +552,6 @@ def has_nonintegral_or_lambda(v):
     if v.k == "rec":
         return any(has_nonintegral_or_lambda(x) for _, x in v.p)
     return v.k in ("lam", "builtin")
-
-
-def has_nonascii_string(v):
-    if isinstance(v, Raw):
-        return False
-    if v.k == "str":
-        return not v_is_ascii(v)
-    if v.k == "list":
-        return any(has_nonascii_string(x) for x in v.p)
-    if v.k == "rec":
-        return any(has_nonascii_string(x) for _, x in v.p)
-    return False
-
-
-def classify_known(cs):
-    """mirror of the Coq exclusions: which open finding class (if any) a BUILTIN case falls into"""
-    a = cs.args
-    if cs.name in ("len", "head", "tail", "slice") and a and getattr(a[0], "k", "") == "str" and not v_is_ascii(a[0]):
-        return "C14-string-bytes"
-    if cs.name in ("sort_by", "group_by", "count_by") and len(a) >= 2:
-        cb = a[1].src()
-        if any(w in cb for w in ("head", "len", "tail")) and has_nonascii_string(a[0]):
-            return "C14-string-bytes"
-    if cs.name == "range" and a and all(getattr(x, "k", "") == "num" for x in a) and len(a) in (1, 2):
-        lo, hi = (0.0, a[0].p) if len(a) == 1 else (a[0].p, a[1].p)
-        if math.isfinite(lo) and math.isfinite(hi) and lo <= hi:
-            cl = lambda x: max(-2 ** 63, min(2 ** 63 - 1, int(x)))
-            if cl(hi) - cl(lo) > 2 ** 63 - 1:
-                return "C14-range-overflow"
-    return None
 
 
 def range_too_long(cs):
@@ -811,9 +776,8 @@ def gen_law(rng):
             if t_mutually_comparable(inp[1]):
                 return sorted_stable(inp[1], out[1], lambda x: x)
             return None
-        unspecified = len(l.p) > 20 and not t_mutually_comparable(tree_of(l)[1])
         return Law("sort: stable permutation, non-decreasing when mutually comparable",
-                   "l = %s\nsort(l)" % l.src(), pred, "C14-sort-panic" if unspecified else None)
+                   "l = %s\nsort(l)" % l.src(), pred)
     if r == 1:
         l = keyed_records(rng)
         field = rng.choice(["k", "tag"])
@@ -829,10 +793,7 @@ def gen_law(rng):
             if t_mutually_comparable([keyf(x) for x in inp[1]]):
                 return sorted_stable(inp[1], out[1], keyf)
             return None
-        keys = [dict(x[1])[field.encode()] for x in tree_of(l)[1]]
-        unspecified = len(l.p) > 20 and not t_mutually_comparable(keys)
-        return Law("sort_by: stable permutation ordered by key", "l = %s\nsort_by(l, x => x.%s)" % (l.src(), field), pred,
-                   "C14-sort-panic" if unspecified else None)
+        return Law("sort_by: stable permutation ordered by key", "l = %s\nsort_by(l, x => x.%s)" % (l.src(), field), pred)
     if r == 2:
         l = gen_list(rng)
 
@@ -1045,9 +1006,8 @@ def gen_law(rng):
         if sl != "OK:" + S(b"".join(chs[i:j]).decode()).show():
             return "slice(s, i, j) is not characters i..j-1"
         return None
-    known = None if all(ord(ch) < 128 for ch in s) else "C14-string-bytes"
     return Law("string functions see the same characters as indexing/spreading",
-               "s = %s\nlen(s)\nhead(s)\ntail(s)\nslice(s, %d, %d)" % (S(s).src(), i, j), pred, known)
+               "s = %s\nlen(s)\nhead(s)\ntail(s)\nslice(s, %d, %d)" % (S(s).src(), i, j), pred)
 
 
 # =========================================================================== main
@@ -1087,6 +1047,20 @@ def main(argv):
     c.proof_step(res, PID, extra_targets=["C14Run.vo"])
     known = {e["id"]: e for e in c.open_known(PID)}
 
+    # ------------------------------------------------------------------ witnesses of fixed findings (regression corpus)
+    wpath = os.path.join(c.VERIF, "corpus", PID, "fixed_witnesses.jsonl")
+    wit = [json.loads(l) for l in open(wpath) if l.strip()] if os.path.exists(wpath) else []
+    wouts = c.harness_lines_resilient(h, "eval", [c.hexs(w["program"]) for w in wit])
+    wbad = 0
+    for w, o in zip(wit, wouts):
+        got = last_result(o)
+        if got != w["expected"]:
+            wbad += 1
+            res.violation("fixed finding %s is back: %s" % (w["id"], w["what"]),
+                          {"kind": "impl", "program": w["program"], "observed": got, "expected": w["expected"],
+                           "rerun": "./check C14 --replay <this file>"})
+    res.streams["FIXED-WITNESSES"] = {"cases": len(wit), "failing": wbad}
+
     # ------------------------------------------------------------------ BUILTIN correspondence
     nb = 2600 if tier == "quick" else 40000
     nm = 500 if tier == "quick" else 8000
@@ -1103,8 +1077,6 @@ def main(argv):
     for _ in range(nm):
         cases.append(gen_malformed_case(rng))
     cases = [cs for cs in cases if not range_too_long(cs)]
-    for cs in cases:
-        cs.known = classify_known(cs)
     plain = [cs for cs in cases if not cs.checked]
     chk = [cs for cs in cases if cs.checked]
     outs = {}
@@ -1118,20 +1090,9 @@ def main(argv):
     except c.BrokenTie as e:
         res.tie_broken(e.what, e.detail)
         model = [None] * len(tomodel)
-    kcases = [cs for cs in tomodel if cs.known and cs.known in known]
-    fixed_model = {}
-    try:
-        fm = c.coq_eval_batch(REQS, "", ["(show_out (run_bi_fixed B_%s [%s]))" % (cs.name, "; ".join(a.coq() for a in cs.args))
-                                         for cs in kcases], "c14f")
-        fixed_model = {id(cs): x for cs, x in zip(kcases, fm)}
-    except c.BrokenTie as e:
-        res.tie_broken(e.what, e.detail)
-    known_current = known_fixed = 0
     mism = []
     validated = 0
-    skipped_known = {}
     unmodelled = 0
-    anyperm = 0
     tags = {}
     outcome_hist = {}
     for cs, m in zip(tomodel, model):
@@ -1140,47 +1101,8 @@ def main(argv):
         outcome_hist[r.split(":")[0]] = outcome_hist.get(r.split(":")[0], 0) + 1
         if m is None:
             continue
-        incomparable = m.endswith("#INCOMPARABLE")
-        if incomparable:
-            m = m[:-len("#INCOMPARABLE")]
-            if m != r and m.startswith("OK:") and r.startswith("OK:") and "C14-sort-panic" in known and \
-                    multiset_of_list_text(r[3:]) == sorted(x.show() for x in cs.args[0].p):
-                anyperm += 1          # unspecified order (std contract): another permutation than std 1.89's
-                validated += 1
-                continue
-        if cs.known and cs.known in known:
-            # open finding class: the positive theorems claim nothing here, but the implementation must still be
-            # either the code as transcribed or the proposed repair
-            skipped_known[cs.known] = skipped_known.get(cs.known, 0) + 1
-            fx = fixed_model.get(id(cs))
-            if "UNMODELLED" in (m, fx) and cs.name in ("sort", "sort_by") and getattr(cs.args[0], "k", "") == "list" and \
-                    r.startswith("OK:") and multiset_of_list_text(r[3:]) == sorted(x.show() for x in cs.args[0].p):
-                anyperm += 1          # also in std's unspecified class: any permutation
-            elif "UNMODELLED" in (m, fx) and cs.name in ("sort", "sort_by") and r == "PANIC" and "C14-sort-panic" in known:
-                skipped_known["C14-sort-panic"] = skipped_known.get("C14-sort-panic", 0) + 1
-            elif r == m:
-                known_current += 1
-            elif fx is not None and r == fx:
-                known_fixed += 1
-            else:
-                mism.append((cs, "%s (or, repaired, %s)" % (m, fx), r))
-            continue
-        if m == "UNMODELLED" and cs.name in ("sort", "sort_by") and cs.args and getattr(cs.args[0], "k", "") == "list":
-            # std's sort is unspecified here (comparator not a total order, more than 20 elements):
-            # any permutation of the input is accepted; a panic is the open finding C14-sort-panic
-            if r.startswith("OK:") and multiset_of_list_text(r[3:]) == sorted(x.show() for x in cs.args[0].p):
-                anyperm += 1
-                validated += 1
-            elif r == "PANIC" and "C14-sort-panic" in known:
-                skipped_known["C14-sort-panic"] = skipped_known.get("C14-sort-panic", 0) + 1
-            else:
-                mism.append((cs, m, r))
-            continue
         if m == "UNMODELLED":
             unmodelled += 1
-            continue
-        if r.startswith("BADARG") or r == "NOBUILTIN":
-            mism.append((cs, m, r))
             continue
         if m == r:
             validated += 1
@@ -1199,11 +1121,8 @@ def main(argv):
                                "observed": r, "expected": m, "rerun": "./check C14 --replay <this file>"})
                 break
     res.streams["BUILTIN"] = {"cases": len(cases), "modelled": len(tomodel), "validated": validated,
-                              "mismatches": len(mism), "model_unmodelled": unmodelled, "sort_unspecified_any_permutation": anyperm,
-                              "input_outside_oracle_domain": len(cases) - len(tomodel),
-                              "excluded_open_finding_classes": skipped_known,
-                              "open_class_inputs_matching_current_code_model": known_current,
-                              "open_class_inputs_matching_repaired_model": known_fixed, "tags": tags,
+                              "mismatches": len(mism), "model_unmodelled": unmodelled,
+                              "input_outside_oracle_domain": len(cases) - len(tomodel), "tags": tags,
                               "impl_outcomes": outcome_hist}
 
     # ------------------------------------------------------------------ EVAL correspondence
@@ -1260,7 +1179,7 @@ def main(argv):
                 why = "unexpected result shape (%s): %s" % (ex, "|".join(rs)[:200])
         if why is None:
             continue
-        if lw.known and lw.known in known and (lw.known != "C14-sort-panic" or (rs is None and o.startswith("PANIC"))):
+        if lw.known and lw.known in known:
             law_known[lw.known] = law_known.get(lw.known, 0) + 1
             continue
         nviol += 1
@@ -1293,8 +1212,7 @@ def main(argv):
     res.coverage["samples"] = [{"call": cs.text(), "impl": outs[id(cs)]} for cs in pick] + \
         [{"program": ecases[rng.below(len(ecases))].prog}] + [{"law": laws[0].name, "program": laws[0].prog}]
     res.coverage["traces_validated_against_impl"] = validated + evalid
-    res.assumptions = ["slice::sort_by is a stable sort (std documentation); on inputs whose comparator is not a total "
-                       "preorder only the multiset of the result is compared",
+    res.assumptions = ["sort/sort_by: the repo's own merge sort is transcribed and compared exactly on every input",
                        "str::split/replace/contains equal naive leftmost search; trim/to_uppercase/to_lowercase and f64 "
                        "Display are oracles in the theorems and are compared on ASCII / integral inputs only"]
     return res.finish()
